@@ -117,6 +117,20 @@ func (ex *Exec) engineAxioms(used map[string]bool) string {
 (assert (= (card ((as const (Array Int Bool)) false)) 0))
 `)
 	}
+	if used["sidsetf"] {
+		sb.WriteString(`(declare-fun sidwit ((Array Int Str) Int Int Int) Int)
+(assert (forall ((r (Array Int Str)) (lo Int) (hi Int) (k Int)) (! (=> (<= hi lo) (not (select (sidsetf r lo hi) k))) :pattern ((select (sidsetf r lo hi) k)))))
+(assert (forall ((r (Array Int Str)) (lo Int) (hi Int) (j Int)) (! (=> (and (<= lo j) (< j hi)) (select (sidsetf r lo hi) (sid (select r j)))) :pattern ((sidsetf r lo hi) (select r j)))))
+(assert (forall ((r (Array Int Str)) (lo Int) (hi Int) (k Int)) (! (=> (select (sidsetf r lo hi) k) (and (<= lo (sidwit r lo hi k)) (< (sidwit r lo hi k) hi) (= (sid (select r (sidwit r lo hi k))) k))) :pattern ((select (sidsetf r lo hi) k)))))
+`)
+	}
+	if used["joinspf"] {
+		sb.WriteString(`(declare-fun catid (Int Int) Int)
+(assert (forall ((a Str) (b Str)) (! (= (sid (sconcat a b)) (catid (sid a) (sid b))) :pattern ((sconcat a b)))))
+(assert (forall ((r (Array Int Str)) (lo Int) (sep Str)) (! (and (= (sid (joinspf r lo (+ lo 1) sep)) (sid (select r lo))) (= (slen (joinspf r lo (+ lo 1) sep)) (slen (select r lo)))) :pattern ((joinspf r lo (+ lo 1) sep)))))
+(assert (forall ((r (Array Int Str)) (lo Int) (hi Int) (sep Str)) (! (=> (> hi lo) (and (= (sid (joinspf r lo (+ hi 1) sep)) (catid (sid (joinspf r lo hi sep)) (catid (sid sep) (sid (select r hi))))) (= (slen (joinspf r lo (+ hi 1) sep)) (+ (slen (joinspf r lo hi sep)) (slen sep) (slen (select r hi)))))) :pattern ((joinspf r lo (+ hi 1) sep)))))
+`)
+	}
 	if used["seqshift"] {
 		sb.WriteString(`(assert (forall ((a (Array Int Int)) (o Int) (i Int)) (! (= (select (seqshift a o) i) (select a (+ o i))) :pattern ((select (seqshift a o) i)))))
 `)
@@ -256,17 +270,23 @@ func (ex *Exec) buildQueryMode(o *Obligation, sg subgoal, exclude string, values
 	sb.WriteString(Preamble)
 	ex.D.EmitFor(&sb, append(all, values...))
 	eng := map[string]bool{}
-	for _, n := range []string{"sconcat", "chr", "card", "subobj", "sid", "seqshift", "seqdel"} {
+	for _, n := range []string{"sconcat", "chr", "card", "subobj", "sid", "seqshift", "seqdel", "sidsetf", "joinspf"} {
 		if used[n] {
 			eng[n] = true
 		}
 	}
 	if !light {
 		sb.WriteString(ex.engineAxioms(eng))
-	} else if eng["subobj"] || eng["card"] || eng["sconcat"] || eng["chr"] || eng["sid"] || eng["seqshift"] {
+	} else {
 		// declarations only (the axioms are quantified)
 		if eng["subobj"] {
 			sb.WriteString("(declare-fun subobj.owner (Int) Int)\n(declare-fun subobj.field (Int) Int)\n")
+		}
+		if eng["sidsetf"] {
+			sb.WriteString("(declare-fun sidwit ((Array Int Str) Int Int Int) Int)\n")
+		}
+		if eng["joinspf"] {
+			sb.WriteString("(declare-fun catid (Int Int) Int)\n")
 		}
 	}
 	focus := append(append([]*Term{}, sg.hyps...), neg)
